@@ -54,6 +54,40 @@ Proof. exact const_tools_blind. Qed.
 Example c19_printenv_tool_is_not_blind : ~ tools_blind leak_script.
 Proof. exact printenv_not_blind. Qed.
 
+(* After the fix of B1 (rip-tools secret_env.rs; shell.rs, ripd tasks/pipes.rs, pty.rs): what rip HANDS to a tool subprocess is
+   the authority's environment without the credential variables (RIP_OPENRESPONSES_API_KEY, OPENAI_API_KEY,
+   OPENROUTER_API_KEY and every `{ "env": NAME }` key source of the loaded configuration). *)
+Theorem c19_tool_env_has_no_credential_variable : forall (w : world) (k : str),
+  In k (secret_env_names w) -> getenv (tool_env w) k = None.
+Proof. exact tool_env_has_no_credential_variable. Qed.
+Print Assumptions c19_tool_env_has_no_credential_variable.
+
+(* Noninterference for ALL tools that are functions of the call and of the environment rip hands them (every fuel,
+   validator, provider, both entry points): worlds that differ only in secret values - inline keys, header values, the
+   values of credential variables - store and show the same.  (A tool that fetches the secret itself with the user's
+   OS permissions - a configuration file with an inline key, /proc/<authority pid>/environ - is a function of the whole
+   world: c19_noninterference_full_refuted / hypothesis tools_blind.) *)
+Theorem c19_noninterference_env_tools : forall (fuel : nat) (v : body -> list str) (p : N -> str -> body -> presp)
+                                               (t : env -> tcall -> list str * str) (thread : bool) (w1 w2 : world)
+                                               (prompt : str) (initial : list item),
+  low_world w1 = low_world w2 ->
+  tool_env w1 = tool_env w2 ->
+  persisted (run_w fuel (mkWScript v p (fun w => t (tool_env w))) thread w1 prompt initial)
+  = persisted (run_w fuel (mkWScript v p (fun w => t (tool_env w))) thread w2 prompt initial)
+  /\ doctor w1 = doctor w2.
+Proof. exact noninterference_env_tools. Qed.
+Print Assumptions c19_noninterference_env_tools.
+
+Example c19_b1_worlds_get_the_same_tool_env :
+  tool_env (leak_world (lit "sk-AAAA")) = tool_env (leak_world (lit "sk-BBBB"))
+  /\ tool_env (leak_world (lit "sk-AAAA")) = [(E_ENDPOINT, lit "http://127.0.0.1:9/v1/responses")].
+Proof. exact leak_world_tool_env. Qed.
+Example c19_printenv_prints_nothing_after_the_fix :
+  tool_events (fst (persisted (run_w 10 fixed_script false (leak_world (lit "sk-AAAA")) (lit "probe") []))) = [[]].
+Proof. exact fixed_tool_events. Qed.
+Example c19_env_reference_is_removed_too : tool_env (envref_world (lit "sk-AAAA")) = [(lit "HOME", lit "/home/u")].
+Proof. exact envref_world_tool_env. Qed.
+
 (* the special case of tools given as a fixed function of the call *)
 Theorem c19_noninterference : forall (fuel : nat) (sc : script) (thread : bool) (w1 w2 : world)
                                      (prompt : str) (initial : list item),
